@@ -57,57 +57,46 @@ Theorem C06_iter_is_abs : forall b, (1 <= b)%Z -> forall v bgn en, Inv b v ->
 Proof. exact iter_ref. Qed.
 Print Assumptions C06_iter_is_abs.
 
-(* ---- one operation on a vector or a slice view, including the vals entry
-   points: same result as on the plain list; [strict = true] is the code with
-   the bounds test of subVector.SubVector repaired, [op_safe] excludes exactly
-   a slice-of-slice request whose bounds lie outside the slice ---- *)
-Theorem C06_operation_refines : forall b, (1 <= b)%Z -> forall strict x o,
-  VInv b x -> strict = true \/ op_safe x o ->
-  vabs_out b (m_apply b strict x o) = s_apply (vabs b x) o /\ out_inv (Inv b) (m_apply b strict x o).
+(* ---- one operation on a vector or a slice view (slices of slices included),
+   or through the vals entry points: same result as on the plain list ---- *)
+Theorem C06_operation_refines : forall b, (1 <= b)%Z -> forall x o,
+  VInv b x ->
+  vabs_out b (m_apply b x o) = s_apply (vabs b x) o /\ out_inv (Inv b) (m_apply b x o).
 Proof. exact apply_refines_b. Qed.
 Print Assumptions C06_operation_refines.
 
-(* ---- histories over the version store ----
-   FULL STATEMENT (false for the code as it is, see C06_history_refines_list_refuted):
-     forall ops, map (vabs_out cb) (run (m_apply cb false) [Some (Vec empty)] ops)
-                 = run s_apply [Some []] ops.                                      *)
-Theorem C06_history_refines_list_refuted : exists ops,
-  map (vabs_out cb) (run (m_apply cb false) [Some (Vec empty)] ops) <> run s_apply [Some []] ops.
-Proof. exact (ex_intro _ subsub_witness subsub_bounds_refuted). Qed.
-Print Assumptions C06_history_refines_list_refuted.
+(* ---- histories over the version store: for EVERY history (any earlier version
+   may be the target of any operation; no length bound) every outcome (new list,
+   rejection, element, iteration) equals the outcome of the same operation on
+   plain lists ---- *)
+Theorem C06_history_refines_list : forall b, (1 <= b)%Z -> forall ops,
+  map (vabs_out b) (run (m_apply b) [Some (Vec empty)] ops) = run s_apply [Some []] ops.
+Proof. exact history_refines_list_b. Qed.
+Print Assumptions C06_history_refines_list.
 
-(* every history in which no slice of a slice is requested with bounds outside
-   the slice: every outcome (new list, rejection, element, iteration) equals the
-   outcome of the same operation on plain lists; any earlier version may be the
-   target of any operation; no length bound *)
-Theorem C06_history_refines_list_partial : forall b, (1 <= b)%Z -> forall ops,
-  safe b [Some (Vec empty)] ops ->
-  map (vabs_out b) (run (m_apply b false) [Some (Vec empty)] ops) = run s_apply [Some []] ops.
-Proof. exact history_partial_b. Qed.
-Print Assumptions C06_history_refines_list_partial.
+(* no operation of any history panics (nil dereference, failed type assertion,
+   "cannot advance") or exhausts the iteration fuel *)
+Theorem C06_no_panic : forall b, (1 <= b)%Z -> forall ops,
+  ~ In XPanic (run (m_apply b) [Some (Vec empty)] ops) /\
+  ~ In XFuel (run (m_apply b) [Some (Vec empty)] ops).
+Proof. exact no_panic_b. Qed.
+Print Assumptions C06_no_panic.
 
-(* with the bounds test repaired the full statement holds for all histories *)
-Theorem C06_history_refines_list_repaired : forall b, (1 <= b)%Z -> forall ops,
-  map (vabs_out b) (run (m_apply b true) [Some (Vec empty)] ops) = run s_apply [Some []] ops.
-Proof. exact history_strict_b. Qed.
-Print Assumptions C06_history_refines_list_repaired.
-
-(* no operation of such a history panics (nil dereference, failed type
-   assertion, "cannot advance") or exhausts the iteration fuel *)
-Theorem C06_no_panic_partial : forall b, (1 <= b)%Z -> forall ops,
-  safe b [Some (Vec empty)] ops ->
-  ~ In XPanic (run (m_apply b false) [Some (Vec empty)] ops) /\
-  ~ In XFuel (run (m_apply b false) [Some (Vec empty)] ops).
-Proof. exact no_panic_partial_b. Qed.
-Print Assumptions C06_no_panic_partial.
+(* the requests of the former subsub-oob counterexample (slice of a slice with
+   bounds outside the slice) are rejected *)
+Theorem C06_subsub_bounds_rejected :
+  run (m_apply cb) [Some (Vec empty)] subsub_witness
+  = [XVec (Vec (mkVec 6 0 ANil (zrange 6 0))); XVec (Sub (mkVec 6 0 ANil (zrange 6 0)) 2 5); XRejected; XRejected].
+Proof. exact subsub_bounds_rejected. Qed.
+Print Assumptions C06_subsub_bounds_rejected.
 
 (* persistence: reading (Index / iteration) any existing version gives the same
    result however many operations on whatever versions happen in between *)
-Theorem C06_old_versions_unchanged : forall b strict st ops1 ops2 o,
-  (op_target o < length (store_after (m_apply b strict) st ops1))%nat ->
-  last (run (m_apply b strict) st (ops1 ++ [o])) XMissing =
-  last (run (m_apply b strict) st (ops1 ++ ops2 ++ [o])) XMissing.
-Proof. exact (fun b strict => old_versions_unchanged (m_apply b strict)). Qed.
+Theorem C06_old_versions_unchanged : forall b st ops1 ops2 o,
+  (op_target o < length (store_after (m_apply b) st ops1))%nat ->
+  last (run (m_apply b) st (ops1 ++ [o])) XMissing =
+  last (run (m_apply b) st (ops1 ++ ops2 ++ [o])) XMissing.
+Proof. exact (fun b => old_versions_unchanged (m_apply b)). Qed.
 Print Assumptions C06_old_versions_unchanged.
 
 (* the oracle used on the implementation's observations is sound: if it accepts,
@@ -117,11 +106,9 @@ Theorem C06_oracle_sound : forall steps, check_C06 steps = true ->
 Proof. exact check_C06_sound. Qed.
 Print Assumptions C06_oracle_sound.
 
-(* non-vacuity: a safe history crossing both height changes, with slices of slices *)
+(* non-vacuity: a history crossing both height changes, with slices of slices *)
 Example C06_nonvacuous :
-  safe cb [Some (Vec empty)]
-    [OConjRange 0 0 1057; OPop 1; OPopN 2 1000; OSub 1 30 70; OSub 4 1 5; OAssoc 5 4 (AVal 9); OIter 6; OIter 1]
-  /\ nth 6 (run (m_apply cb false) [Some (Vec empty)]
+  nth 6 (run (m_apply cb) [Some (Vec empty)]
     [OConjRange 0 0 1057; OPop 1; OPopN 2 1000; OSub 1 30 70; OSub 4 1 5; OAssoc 5 4 (AVal 9); OIter 6; OIter 1]) XMissing
      = XRead [AVal 31; AVal 32; AVal 33; AVal 34; AVal 9].
 Proof. exact nonvacuous_example. Qed.
